@@ -59,7 +59,8 @@ Fixpoint runs (es : list entry) : list (list entry) :=
   | e :: es' =>
       match runs es' with
       | (f :: run) :: rest => if continues e f then (e :: f :: run) :: rest else [e] :: (f :: run) :: rest
-      | _ => [[e]]
+      | [] :: rest => [e] :: rest      (* unreachable: runs are never empty *)
+      | [] => [[e]]
       end
   end.
 
@@ -160,18 +161,12 @@ Definition from_db (sequence : list ascii) (pairs : list (nat * nat)) : bpseq :=
             (map (fun p => {| idx := S (fst p); nt := snd p; pair := 0 |})
                  (combine (seq 0 (length sequence)) sequence)).
 
-(* the 0-based pairs of a structure, ordered by closing position: what a lossless
-   dot-bracket must decode to *)
-Definition insert_by_close (p : nat * nat) :=
-  fix ins (l : list (nat * nat)) : list (nat * nat) :=
-    match l with
-    | [] => [p]
-    | q :: t => if snd p <? snd q then p :: q :: t else q :: ins t
-    end.
-Definition sort_by_close (l : list (nat * nat)) : list (nat * nat) :=
-  fold_right insert_by_close [] l.
+(* the 0-based pairs (opener, closer) of a structure, listed by closing position: what a
+   lossless dot-bracket must decode to.  Every pair of a symmetric structure appears exactly
+   once, at its 3' member. *)
+Definition is_closer (e : entry) : bool := negb (pair e =? 0) && (pair e <? idx e).
 Definition pairs0 (b : bpseq) : list (nat * nat) :=
-  sort_by_close (map (fun e => (idx e - 1, pair e - 1)) (paired53 b)).
+  map (fun e => (pair e - 1, idx e - 1)) (filter is_closer b).
 
 (* ---------------------------------------------------------------- FCFS *)
 
